@@ -60,6 +60,8 @@ def scripted_input(answers, log):
         log.append((prompt, a))
         if a == "<EOF>":
             raise EOFError("EOF when reading a line")  # stdin is closed / at end of file: no answer at all
+        if a == "<INT>":
+            raise KeyboardInterrupt()  # Ctrl+C while the question is pending: no answer either
         return a
 
     builtins.input = fake
